@@ -68,7 +68,7 @@ def gen_case(rnd, prop, tier):
             # no tables are built for C12, so attribute sizes may be huge (cost-based choices must not change validity)
             sizes = [rnd.choice([1, 2, 3, 7, 50, 400, 1500, 1200, 10000]) for _ in range(n)]
         cliques, kind = gen.gen_cliques(rnd, attrs, max_width=4)
-        return dict(engine='A', attrs=attrs, sizes=sizes, cliques=cliques, kind=kind, elims=[gen_elim(rnd, attrs)])
+        return dict(engine='A', attrs=attrs, sizes=sizes, cliques=cliques, kind=kind, elims=[gen_elim(rnd, attrs)], fresh_names=rnd.random() < 0.3)
     n = rnd.choice([1, 2, 3, 3, 4, 4, 4, 5, 5, 6])
     attrs = gen.gen_names(rnd, n)
     sizes = gen.gen_sizes(rnd, n, max_size=4, max_joint=4096)
@@ -86,8 +86,11 @@ def gen_case(rnd, prop, tier):
     shift = None
     if cliques and rnd.random() < 0.6:
         shift = [rnd.randrange(len(cliques)), rnd.choice([1.0, -7.5, 1e3, -1e6])]
+    inplace = None
+    if rnd.random() < 0.4:
+        inplace = dict(seed=rnd.getrandbits(32), mode=rnd.choice(['iadd', 'assign']))
     return dict(engine='A', attrs=attrs, sizes=sizes, cliques=cliques, kind=kind, pots=pots, scale=scale, total=total,
-                elims=elims, scheds=scheds, shift=shift, fold=rnd.choice(['harness', 'combine']))
+                elims=elims, scheds=scheds, shift=shift, fold=rnd.choice(['harness', 'combine']), fresh_names=rnd.random() < 0.3, inplace=inplace)
 
 
 def sample_view(case):
@@ -102,6 +105,8 @@ def build(mbi, case, elim, prop, what='GraphicalModel'):
     """construct the model / tree under the SimRNG; returns (object, rng, elim actually passed)."""
     dom = mbi.Domain(case['attrs'], case['sizes'])
     cliques = [tuple(cl) for cl in case['cliques']]
+    if case.get('fresh_names'):
+        cliques = gen.fresh_cliques(cliques)
     if isinstance(elim, dict):
         rng = SimRNG(random.Random(elim['seed']), {'rates': elim.get('rates', {})})
         arg = int(elim['int'])
@@ -145,7 +150,7 @@ def fold(mbi, case, model, shift=None):
             order = sorted(range(len(cl)), key=lambda i: tgt.index(cl[i]))
             a = np.transpose(arr, order) if len(cl) > 1 else arr
             shape = [dom.config[x] if x in cl else 1 for x in tgt]
-            pots[tgt].values = pots[tgt].values + a.reshape(shape)
+            pots[tgt] = mbi.Factor(pots[tgt].domain, pots[tgt].values + a.reshape(shape))     # item assignment after construction
     return pots
 
 
@@ -314,6 +319,21 @@ def run_c01(mbi, case, break_dep=None):
                     viol += check_bp(mbi, model, pots2, ref, None, total, max(scale, abs(case['shift'][1])), tag + ' shifted', digests)
                     steps += len(order)
             model.message_order = own
+            ip = case.get('inplace')
+            if ip and not viol:
+                # the SAME potentials container is updated in place between two calls on the SAME model object
+                r = random.Random(ip['seed'] + ei)
+                cl0 = nodes[r.randrange(len(nodes))]
+                delta = np.array([r.gauss(0, 1.0) for _ in range(int(np.prod(pots[cl0].values.shape)))]).reshape(pots[cl0].values.shape)
+                if ip['mode'] == 'iadd':
+                    pots[cl0] += mbi.Factor(pots[cl0].domain, delta)
+                else:
+                    pots[cl0] = mbi.Factor(pots[cl0].domain, pots[cl0].values + delta)
+                logp2 = logp + refmodel.joint_logp(attrs, sizes, [(list(cl0), delta)])
+                ref2 = {cl: refmodel.marginal(logp2, attrs, total, cl) for cl in nodes}
+                faults['potentials-updated-in-place'] = faults.get('potentials-updated-in-place', 0) + 1
+                viol += check_bp(mbi, model, pots, ref2, refmodel.lse(logp2), total, scale, 'elim#%d/%s after in-place update (%s) of the potentials on %s' % (ei, mode, ip['mode'], cl0), digests)
+                steps += len(own)
         except Violation as e:
             viol.append(e.as_dict())
     measure = [hypergraph(case), used_elims, used_scheds]
@@ -380,6 +400,14 @@ def shrink(case, prop):
             c = copy.deepcopy(case)
             c['elims'] = [case['elims'][k]]
             yield c
+    if case.get('fresh_names'):
+        c = copy.deepcopy(case)
+        c['fresh_names'] = False
+        yield c
+    if prop == 'C01' and case.get('inplace'):
+        c = copy.deepcopy(case)
+        c['inplace'] = None
+        yield c
     if prop == 'C01':
         if len(case['scheds']) > 1:
             for k in range(len(case['scheds'])):
